@@ -145,7 +145,13 @@ func (c *Case) Run(v *vm.Thread, events chan<- *ReportEvent, ctx context.Context
 
 	caseReport, ok = c.runBeforeEach(startTime, caseReport, v, events, ctx)
 	if !ok {
+		if caseReport == nil {
+			return nil
+		}
 		c.runAfterEach(startTime, caseReport, v)
+		caseReport.duration = time.Since(startTime)
+		// the case has been reported as started, it has to be reported as finished as well
+		events <- NewCaseReportEvent(caseReport, REPORT_FINISH_CASE)
 		return caseReport
 	}
 
